@@ -6,62 +6,75 @@ TECH = "contract-based deductive verification: go/ssa VC generation (govc) + z3/
 
 # id -> (what the contracts decide, what stays outside / assumed)
 CLAIMS = {
- "C02": ("Per-extension wire format of 22 simple extension encoders (Len/Read): exact type, outer and inner length prefixes, body bytes, ErrShortBuffer without writes; byte-exact even beyond wire limits (silent length truncation is specified, not hidden).",
-         "MarshalClientHelloNoECH (whole-hello length accounting, PSK-last, error instead of truncation), the list-valued encoders with running sums (ALPN, ALPS, key_share, PSK, QUIC TP, ECH) and utlsIdToSpec tables are not under contract yet: those clauses are not decided."),
+ "C01": ("MarshalClientHelloNoECH sets Hello.Raw to exactly the buffer it assembled (length 4+helloLen, closed form without padding); MarshalClientHello delegates to it without ECH and returns its error (and, after fix 65e8d74, the error of the outer ECH computation); writeHandshakeRecord sends the marshalled message and feeds the very same slice to the transcript; clientHelloMsg.marshal returns `original` when set and getPrivatePtr carries Raw into `original` (so the record written is Raw).",
+         "The glue in (*UConn).clientHandshake / handshakeContext (rebuild at handshake start, which message object is written, Raw after HRR) is a chain of uncontracted calls and is not decided; 'every edit is visible' is decided only through MarshalClientHelloNoECH reading the current fields."),
+ "C02": ("Per-extension wire format of all built-in extension encoders (Len/Read): exact type, outer and inner length prefixes, body bytes, ErrShortBuffer without writes, including the list-valued ones with running sums (ALPN, ALPS old/new, key_share, PSK fake/real, QUIC transport parameters, GREASE ECH); MarshalClientHelloNoECH: second padding extension is an error, total length check, and no length prefix is truncated on a nil return (defect found and fixed, 3b4694d; ECH error dropped, fixed 65e8d74).",
+         "That no extension type repeats / PSK is last for every parrot (utlsIdToSpec tables are too large for the generator), and RFC-grammar parse of each body by an independent parser, are not decided; the padding case of the truncation clauses is outside (Update calls a user function)."),
+ "C03": ("ApplyPreset copies the spec's cipher suites (GREASE re-drawn), compression methods (defect found and fixed, 7533201) and the extension list in order; legacy version rule via SetTLSVers; the shuffle closures of ShuffleChromeTLSExtensions exchange two elements or nothing and never touch other positions.",
+         "utlsIdToSpec (2660-line literal switch) is beyond the generator: 'for every predefined id' is not decided; that the shuffle keeps GREASE/padding/PSK fixed needs the captured predicate (function value from a cell) and is not decided; extension bodies equal to the spec's after writeToUConn links is decided per extension only."),
  "C04": ("GetBoringGREASEValue, isGREASEUint16/unGREASEUint16, QUIC GREASE transport-parameter ids (31N+27, <= 2^62-1) and GREASE version form 0x?a?a?a?a (found violated, fixed by 6e3a082).",
          "ApplyPreset's de-duplication of the two GREASE extensions and same-group GREASE in key_share/supported_groups, and freshness across connections (probabilistic) are not decided."),
- "C05": ("BoringPaddingStyle and AlwaysPadToLen closures: exact 255/512 policy incl. the 1-byte case and the total-length lemma; UtlsPaddingExtension Len/Read/Update (zero body via a fresh-buffer precondition).",
-         "That MarshalClientHelloNoECH calls Update exactly once with the unpadded length and the FromRaw padding reconstruction are not under contract yet."),
- "C06": ("Every extension decoder (Write) in u_tls_extensions.go is total and functional: accepted inputs characterised exactly, fields are the wire values (GREASE normalised), order preserved.",
-         "FromRaw/ReadTLSExtensions/ExtensionFromID composition and the re-marshal idempotence lemma are not under contract yet; equal-size hypothesis for total length is outside."),
- "C07": ("Panic-freedom (bounds, nil, type assertions, explicit panics) of all 25 extension decoders for arbitrary input bytes, against exact trusted contracts of cryptobyte.String.",
-         "JSON importers, ImportTLSClientHello, FromRaw drivers and the 'valid capture yields usable spec' lemma are not under contract yet; panics inside encoding/json and cryptobyte are assumed away."),
- "C08": ("Len()==bytes written by Read(), prefixes, ErrShortBuffer with unchanged buffer for 24 extension types; decoders (Write) functional for 25 types, so Write(body(Read())) fields are pinned per type.",
-         "List-valued encoders with running sums (ALPN, ALPS, key_share, PSK, ECH, QUIC TP) and the per-type round-trip lemma Write∘Read are not under contract yet."),
+ "C05": ("BoringPaddingStyle and AlwaysPadToLen closures: exact 255/512 policy incl. the 1-byte case and the total-length lemma; UtlsPaddingExtension Len/Read/Update; MarshalClientHelloNoECH calls Update iff there is exactly one padding extension, exactly once, on that extension, with headerLength+4+sum(Len of the others)+2.",
+         "FromRaw padding reconstruction is not under contract; Update's callee GetPaddingLen is a user function."),
+ "C06": ("Every extension decoder (Write) in u_tls_extensions.go is total and functional: accepted inputs characterised exactly, fields are the wire values (GREASE normalised), order preserved; ApplyPreset re-applies cipher suites, compression methods (defect found and fixed, 7533201) and extension order.",
+         "FromRaw/ReadTLSExtensions/ExtensionFromID composition and the re-marshal idempotence lemma are not under contract; equal-size hypothesis for total length is outside."),
+ "C07": ("Panic-freedom (bounds, nil, type assertions, explicit panics) of all 25 extension decoders for arbitrary input bytes, against exact trusted contracts of cryptobyte.String; JSON importers of the extension types and ImportTLSClientHello loops (three panics/overflows found and fixed: 6d91c88, 9e151ed, c42f361).",
+         "Panics inside encoding/json and cryptobyte are assumed away (trusted contracts); the 'valid capture yields usable spec' lemma is not decided."),
+ "C08": ("Len()==bytes written by Read(), prefixes, ErrShortBuffer with unchanged buffer for every built-in extension type incl. the list-valued ones (ALPN, ALPS, key_share, PSK, QUIC TP, GREASE ECH); decoders (Write) functional for 25 types, so Write(body(Read())) fields are pinned per type. Defects found and fixed: 0be6a29 (PSK Len/Read), 5e5db6f (GREASE ECH short payload).",
+         "The per-type round-trip lemma Write(Read()) re-encodes to the same bytes is not stated as one lemma (both halves are, separately)."),
+ "C09": ("Helpers of generateRandomizedSpec: removeRC4Ciphers (exact subsequence, no RC4), removeRandomCiphers (first kept, order and arbitrary per-element predicates preserved), sortableCiphers order (TLS 1.2 suites before older), shuffledCiphers, salted PRNG derivation, the swap closures; generateRandomizedSpec itself as far as its contract in verif_contracts_random.go goes (key-share/supported_groups consistency after fix e3585fa).",
+         "Seed reproducibility is determinism of the SHAKE/HKDF stream (trusted, symbolic); weight 0/1 clauses involve float products and are only decided in FlipWeightedCoin itself."),
  "C11": ("State hand-off between public and private handshake state is a complete field map (toPrivate13/12, toPublic13/12, key-share keys, KEM keys); fields without counterpart are enumerated.",
          "Agreement with the server's ConnectionState and exporter equality are two-party properties outside function contracts; known finding: toPrivate13 drops EarlySecret/MasterSecret."),
- "C12": ("Membership checks: checkALPN, mutualCipherSuite(TLS13), cipherSuite(TLS13)ByID, pickCipherSuite: success implies the server's choice is among the offered values; unoffered implies error; decompressCert accepts only advertised algorithms.",
-         "The large upstream functions (checkServerHelloOrHRR, processServerHello, readServerParameters: group, PSK identity, session-id echo) are not under contract; 'before application data' ordering is outside."),
- "C21": ("decompressCert: accepted only if the decompressed stream has exactly the declared length under any per-Read behaviour of the decoder (abstract stream model), only advertised algorithms, framing of the reconstructed message; utlsCompressedCertificateMsg.unmarshal exact; the received message is the one transcribed and decompressed. Defect found and fixed (b66d8b7).",
+ "C12": ("checkServerHelloOrHRR (TLS 1.3 version, session-id echo byte-wise, compression 0, suite among the offered ids and unchanged after HRR), processServerHello 1.3 (group offered, PSK identity index strictly below the number offered, hash match) and 1.2 (compression, suite offered, ALPN offered), readServerParameters (ALPN among offered), checkALPN, mutualCipherSuite(TLS13), cipherSuite(TLS13)ByID, pickCipherSuite, decompressCert (advertised algorithm only): success implies the server's choice was offered; each unoffered choice gives an error.",
+         "'Before any application data' and 'never reported in ConnectionState' are ordering/history clauses outside function contracts; what was offered is hs.hello (identity with the on-wire bytes is C01)."),
+ "C13": ("makeSupportedVersions, SupportedVersionsExtension.writeToUConn, Config.supportedVersions/mutualVersion, pickTLSVersion: the client adopts exactly the ServerHello's version and only if the configuration admits it; SetTLSVers derives Config.Min/MaxVersion from the spec (explicit or derived range) and rejects ranges outside TLS 1.0..1.3. Defect found and fixed: b395d93 (Firefox_102 range).",
+         "Known findings (open): SetTLSVers does not cross-check an explicit range against the supported_versions list, so 'accepted version was advertised' fails for such custom specs; the downgrade-sentinel branch of clientHandshake is not under contract (uncontracted call chain); utlsIdToSpec tables checked only by enumeration outside this technique (not counted)."),
+ "C14": ("verifyServerCertificate: verification name is InsecureServerNameToVerify when set else ServerName, name check skipped for '*', time check relaxed only by InsecureSkipTimeVerify, roots and time from Config, ECH-rejected path verifies against the ECH public name (defect found and fixed, 8b5692c); checkKeySize, fipsAllowedChains.",
+         "x509.Certificate.Verify is trusted (abstract); that every handshake path calls verifyServerCertificate unless InsecureSkipVerify is decided only for the TLS 1.3 certificate readers under contract."),
+ "C16": ("GREASEEncryptedClientHelloExtension: init/randomizePayload/Len/Read/Write: type outer, KDF/AEAD pair taken from the candidate list, 32-byte encapsulated key, payload length = candidate + 16, Len==Read bytes; Write rejects payloads shorter than the tag (defect found and fixed, 5e5db6f); BoringGREASEECH.",
+         "'Identical bytes after HRR' holds because init runs once (sync.Once, modelled as a flag); freshness across connections is probabilistic and not decided."),
+ "C17": ("processHelloRetryRequest without ECH: rejects no-change HRRs, unlisted groups, groups already shared, HRRs carrying a share; the second hello has exactly one fresh share for the selected group (its data is the public key of the key generated in this call, which is the one retained), cookie echoed, KeyShareExtension and CookieExtension of uconn.Extensions updated/inserted with PSK kept last; checkServerHelloOrHRR pins the suite across HRR.",
+         "'Identical except key_share, cookie, padding' for all other extensions relies on MarshalClientHelloNoECH re-reading unchanged objects (frame assumed around it); the ECH branch and 'the handshake then completes' are not decided."),
+ "C18": ("establishHandshakeKeys: the ECDH key used is the one generated for the group the server selected (first classical share or the by-group map; defect found and fixed, 99e3805), hybrid groups use the retained ML-KEM key and its own X25519 key on the right halves of the server share; getSharedKey accepts only peer shares of the key's curve length; ApplyPreset's key-share block retains a key for every generated share (hybrid overwrite fixed, 6b97ef4); generateECDHEKey/curveForCurveID sizes.",
+         "Freshness/non-repetition across connections is probabilistic; that the two sides derive equal secrets needs the algebra of ECDH/ML-KEM (trusted)."),
+ "C19": ("Session controller typestate (shared with C20): loadSession runs at most once, owned extensions are initialised with exactly the loaded session/ticket/identities, binders are updated only in the psk states, finalCheck locks; EMS link writeToUConn.",
+         "Resumption success, binder verification by the server and same-length binder patching (PatchBuiltHello uses cryptobyte builders) are not decided."),
+ "C20": ("sessionController: representation invariant established by newSessionController and preserved by every operation; each documented-forbidden ordering hits a uAssert panic stated as `panics when`, each allowed ordering is panic-free; injected tickets/PSKs are written to the hello exactly as GetPreSharedKeyCommon/ticket extension return them.",
+         "anyTrue/allTrue/mapSlice/initializationGuard (generic higher-order helpers) are assumed for the closures used (listed); resumption with a real server is outside; observation: allTrue index precondition not established when the hello has more identities than the extension."),
+ "C21": ("decompressCert: accepted only if the decompressed stream has exactly the declared length and ends cleanly, under any per-Read behaviour of the decoder (abstract stream model), only advertised algorithms, framing of the reconstructed message; utlsCompressedCertificateMsg.unmarshal exact; the received message is the one transcribed and decompressed. Defect found and fixed (b66d8b7).",
          "brotli/zlib/zstd themselves are abstract streams (trusted readers.vc); transcript verification by the peer is outside."),
- "C22": ("encryptedExtensionsMsg.(utls)unmarshal and the client EncryptedExtensions unmarshal exact; utlsReadServerParameters: peer settings exposed, codepoint recorded, rejection below TLS 1.3 / without ALPN, local settings looked up under the negotiated protocol (defect found and fixed, 7854e18); sendClientEncryptedExtensions passes codepoint, local settings and the transcript.",
+ "C22": ("encryptedExtensionsMsg.(utls)unmarshal and the client EncryptedExtensions unmarshal exact; utlsReadServerParameters: peer settings exposed, codepoint recorded, rejection below TLS 1.3 / without ALPN, local settings looked up under the negotiated protocol (defect found and fixed, 7854e18); sendClientEncryptedExtensions is sent iff ALPS was negotiated, with codepoint, local settings and the transcript.",
          "Byte-level encoding of the client EncryptedExtensions (Builder closures) and the server's Finished check are not decided."),
- "C24": ("quicvarint Len/Append/Read/AppendWithLen for all 62-bit values incl. refusal by panic, value lemmas (round trip of the byte layout), ID/Value of every transport parameter type.",
-         "TransportParameters.Marshal (loop over interface values) is not under contract yet: the concatenation clause is not decided."),
- "C27": ("MakeConnWithCompleteHandshake: nil for unsupported suites, exact panic condition, state fields, sequence numbers, and the mirror wiring of keys/IVs/MACs and direction flags per role through call-site anchors (defect found and fixed, 4d378a7); prepareCipherSpec/changeCipherSpec/incSeq.",
+ "C24": ("quicvarint Len/Append/Read/AppendWithLen for all 62-bit values incl. refusal by panic, value lemmas (round trip of the byte layout), ID/Value of every transport parameter type, TransportParameters.Marshal = concatenation of id/len/value entries in order (walk function), QUICTransportParametersExtension Len/Read.",
+         "GREASE parameter value randomness is outside; Marshal's result for nil parameters is excluded by precondition."),
+ "C27": ("MakeConnWithCompleteHandshake: nil for unsupported suites, exact panic condition, state fields, sequence numbers, and the mirror wiring of keys/IVs/MACs and direction flags per role through call-site anchors (defect found and fixed, 4d378a7); cipherSuiteByID searches the uTLS suite table; prepareCipherSpec/changeCipherSpec/incSeq.",
          "Suite constructors are opaque (assume-pure); keysFromMasterSecret is trusted; that two record layers then interoperate is outside."),
  "C28": ("GetOutKeystream: modifies nothing (does not change what is sent next), error for non-AEAD ciphers, result is Seal(out.cipher, nonce=out.seq, zeros(n)), i.e. the keystream bytes under the symbolic AEAD law.",
          "That halfConn.encrypt uses the same nonce/plaintext layout (T2) and that real AEADs satisfy the keystream law are assumed."),
+ "C29": ("Roller.Dial: starts with WorkingHelloID when set, then each configured id at most once (loop invariant over the shuffled list), returns the first connection whose handshake succeeds with SNI set, records that id; TCP dial error returned immediately; NewRoller, UClient, SetSNI, PRNG constructors.",
+         "Concurrent Dials (data races) are outside sequential contracts; observation: the working id is tried again inside the loop (same id twice per call) when it also appears in HelloIDs -- recorded in DESIGN.md."),
  "C30": ("Intn/Int63n/Int63/Uint64/Perm/Read ranges, Range incl. the overflow corner (check overflow), FlipWeightedCoin in floating point (weight<=0 never, weight>=1 iff Int63()!=0).",
          "Determinism of the SHAKE/HKDF stream per seed and thread-safety are outside (symbolic/sequential)."),
  "C31": ("Field-map postconditions for all public<->private conversions in u_public.go (every destination field enumerated), clientHelloMsg.unmarshal sets original==data so Marshal(UnmarshalClientHello(d))==d exactly. Defect found and fixed (d18ad6e).",
          "Parse/clear-Raw/marshal/parse equality needs upstream marshalMsg (trusted frame only); TicketKeys slice conversions (array-typed fields) unsupported; known finding: toPrivate13 drops secrets."),
- "C32": ("Every entry of every dicttls value-indexed table resolves back through the name-indexed table (2183 ground obligations generated from the real initialiser; defect found and fixed, bbc5f42).",
-         "The JSON import vs raw import equivalence clause is not decided (JSON unmarshalers not under contract yet)."),
+ "C32": ("Every entry of every dicttls value-indexed table resolves back through the name-indexed table (2183 ground obligations generated from the real initialiser; defect found and fixed, bbc5f42); JSON unmarshalers of the extension types map names/ids to the same fields the raw decoders produce (key share data dropped: defect found and fixed, a06445f; absent members: 6d91c88).",
+         "encoding/json itself is trusted; whole-spec JSON vs raw import equivalence is per extension type, not one lemma."),
+ "C33": ("Panic-freedom (index, slice, nil dereference, type assertion, division, explicit panic) of the client functions that consume server messages: checkServerHelloOrHRR, processServerHello (1.2/1.3), readServerParameters, processHelloRetryRequest (non-ECH), establishHandshakeKeys, utlsReadServerParameters, utlsReadServerCertificate, decompressCert, the uTLS message parsers; decompressCert allocates exactly the declared length (<= 2^24).",
+         "Termination/deadlines, allocation bounds in upstream parsers, record layer and the remaining handshake functions are not under contract; panics inside upstream unmarshal methods are assumed away (assume-pure)."),
  "C35": ("encryptTicket/decryptTicket: bounds, lengths, MAC computed over iv||ciphertext in both, keys tried in order, authentic/reject clauses under a symbolic HMAC/CTR model; TicketKeyFromBytes/ticketKeyFromBytes derive identical keys; TicketKey conversions.",
          "Round trip Decrypt(Encrypt(s))==s needs string extensionality across heap updates (not decided); real MAC strength is an idealisation; SessionState codec is upstream."),
+ "C36": ("NewLRUClientSessionCache/Get/Put refine a sequential LRU map of capacity n: data-structure invariant, Get hit/miss and recency update, Put insert/update/evict-least-recent/delete-on-nil, size never above capacity (Put(nil) on an absent key: defect found and fixed, c37dfbd); container/list is an abstract sequence (trusted containers.vc).",
+         "Linearizability and data-race freedom under concurrency are outside sequential contracts (mutex ops are no-ops for the verifier)."),
 }
 
 NA = {
- "C01": "contracts for MarshalClientHelloNoECH / handshakeContext / clientHandshake (Raw identity chain) not built yet",
- "C03": "contracts for ApplyPreset / ShuffleChromeTLSExtensions (closures) not built yet",
- "C09": "contracts for generateRandomizedSpec not built yet",
  "C10": "two-party liveness/interoperability: no pre/post-condition on a /repo function expresses 'the handshake completes' (DESIGN.md section 7)",
- "C13": "contracts for SetTLSVers / pickTLSVersion / utlsIdToSpec version tables not built yet",
- "C14": "contract for verifyServerCertificate not built yet",
- "C15": "contracts for the ECH paths of ApplyPreset / MarshalClientHello not built yet; confidentiality is a hyperproperty outside this technique",
- "C16": "contracts for GREASEEncryptedClientHelloExtension not built yet",
- "C17": "contract for the uTLS section of processHelloRetryRequest not built yet",
- "C18": "contracts for the key-share block of ApplyPreset not built yet",
- "C19": "contracts for uLoadSession / PatchBuiltHello not built yet",
- "C20": "contracts for sessionController typestate not built yet",
- "C23": "contracts for handshakeContext channel discipline not built yet (channel operations are outside the generator subset)",
- "C25": "contracts for UConn.Read/Write not built yet; stream integrity over histories and cryptographic tamper detection are outside this technique",
+ "C15": "confidentiality ('no plaintext byte contains ServerName') is a hyperproperty over the whole flight and acceptance is two-party; only the SNI link (public name with ECH) is under contract, counted under C03/C13 links",
+ "C23": "handshakeContext channel/goroutine discipline: channel operations are outside the generator subset",
+ "C25": "stream integrity over histories of Read/Write and cryptographic tamper detection are outside function contracts",
  "C26": "quantifies over goroutine schedules; the generator has no concurrency logic (DESIGN.md section 7)",
- "C29": "contract for Roller.Dial not built yet",
- "C33": "only decompressCert and the uTLS message parsers are under contract (counted under C21/C22); the remaining client paths not built yet",
- "C34": "contracts for the server-side uTLS message paths not built yet",
- "C36": "contracts for lruSessionCache (container/list model) not built yet",
+ "C34": "server-side uTLS message paths: not under contract (time), and interop with arbitrary clients is two-party",
 }
 
 def main():
